@@ -37,9 +37,12 @@ BINOPS = ["+", "-", "*", "/", "//", "%", "**"]
 CMPOPS = ["<", "<=", ">", ">="]
 UNARY_OPS = ["str", "format", "fstring", "bool", "iter", "len", "hash", "pos", "neg", "int", "float", "complex",
              "getattr", "getattr_us", "getattr_dpre", "getattr_dsuf", "getitem_str", "getitem_int", "call", "call_args", "is_defined", "is_undefined",
-             "default", "default_true", "copy", "deepcopy", "pickle", "dunder_probe", "html_probe"]
+             "default", "default_true", "copy", "deepcopy", "pickle", "dunder_probe", "html_probe",
+             "filter_list", "filter_join", "filter_first"]
 TPL_UNARY = {"str", "bool", "iter", "len", "pos", "neg", "getattr", "getattr_us", "getattr_dpre", "getattr_dsuf", "getitem_str", "getitem_int", "call", "call_args",
-             "is_defined", "is_undefined", "default", "default_true", "int", "float"}
+             "is_defined", "is_undefined", "default", "default_true", "int", "float",
+             "filter_list", "filter_join", "filter_first"}
+PY_SKIP = {"filter_list", "filter_join", "filter_first"}  # template-only operations (sync and async routes)
 
 HINT = "custom hint text 4711"
 
@@ -75,7 +78,10 @@ def _setup():
     envs = {}
     for b, cls in classes.items():
         envs[b] = Environment(undefined=cls)
-        envs["log_" + b] = Environment(undefined=make_logging_undefined(logger, base=cls))
+        lcls = make_logging_undefined(logger, base=cls)
+        envs["log_" + b] = Environment(undefined=lcls)
+        envs["async:" + b] = Environment(undefined=cls, enable_async=True)
+        envs["async:log_" + b] = Environment(undefined=lcls, enable_async=True)
     _state.update(envs=envs, cap=cap, UndefinedError=jinja2.UndefinedError, Undefined=Undefined, classes=classes,
                   Markup=jinja2.utils.markupsafe.Markup if hasattr(jinja2.utils, "markupsafe") else __import__("markupsafe").Markup)
     return _state
@@ -164,6 +170,8 @@ def expected(base, origin, op, operand):
         return ERR if strict else val(lambda v: v is False, "False")
     if op == "iter":
         return ERR if strict else val(lambda v: v == [], "[]")
+    if op in ("filter_list", "filter_join", "filter_first"):
+        return ERR if strict else val(lambda v: True, "an empty result")
     if op == "len":
         return ERR if strict else val(lambda v: v == 0, "0")
     if op == "hash":
@@ -309,6 +317,8 @@ def _tpl_source(origin, op):
         "is_defined": "{{ %s is defined }}" % e, "is_undefined": "{{ %s is undefined }}" % e,
         "default": "{{ %s|default('dflt') }}" % e, "default_true": "{{ %s|default('dflt', true) }}" % e,
         "int": "{{ %s|int }}" % e, "float": "{{ %s|float }}" % e,
+        "filter_list": "{{ %s|list }}" % e, "filter_join": "[{{ %s|join(',') }}]" % e,
+        "filter_first": "{{ (%s|first) is undefined }}" % e,
         "contains_in_u": "{{ %s in %s }}" % (o, e), "u_in_list": "{{ %s in [%s] }}" % (e, o),
     }
     if op in table:
@@ -329,6 +339,12 @@ def _render_expect(base, origin, op, operand, exp):
         return "F"
     if op == "iter":
         return "[]"
+    if op == "filter_list":
+        return "[]"
+    if op == "filter_join":
+        return "[]"
+    if op == "filter_first":
+        return "True"
     if op == "len":
         return "0"
     if op in ("getattr", "getattr_us", "getattr_dpre", "getattr_dsuf", "getitem_str", "getitem_int"):
@@ -355,7 +371,7 @@ def check_case(case):
     ut, origin, op, operand, route = case["ut"], case["origin"], case["op"], case["operand"], case["route"]
     base = ut[4:] if ut.startswith("log_") else ut
     logging_type = ut.startswith("log_")
-    env = st["envs"][ut]
+    env = st["envs"][("async:" + ut) if route == "atpl" else ut]
     UE = st["UndefinedError"]
     exp = expected(base, origin, op, operand)
     nontrivial = not (ut == "default" and op in ("str", "bool"))
@@ -442,14 +458,17 @@ def all_cases():
         for op in UNARY_OPS:
             if op == "pickle" and ut.startswith("log_"):
                 continue
-            yield {"ut": ut, "origin": origin, "op": op, "operand": None, "route": "py"}
+            if op not in PY_SKIP:
+                yield {"ut": ut, "origin": origin, "op": op, "operand": None, "route": "py"}
             if op in TPL_UNARY:
                 yield {"ut": ut, "origin": origin, "op": op, "operand": None, "route": "tpl"}
+                # the same template in an enable_async environment (async iteration protocol, auto_await)
+                yield {"ut": ut, "origin": origin, "op": op, "operand": None, "route": "atpl"}
         for operand in OPERANDS:
             ops = ["contains_in_u", "u_in_list", "==", "!=", "r==", "r!="]
             ops += BINOPS + ["r" + o for o in BINOPS] + CMPOPS + ["r" + o for o in CMPOPS]
             for op in ops:
-                for route in ("py", "tpl"):
+                for route in ("py", "tpl", "atpl"):
                     yield {"ut": ut, "origin": origin, "op": op, "operand": operand, "route": route}
 
 
